@@ -144,6 +144,10 @@ Definition step (s : st) (r : list Z) : option st :=
     if expect_tx c then None else Some s
   else if tag r =? 12 then
     if (fld r 4 =? 0) && (fld r 5 =? 0) && (fld r 7 =? 0) then Some s else None
+  else if (tag r =? 13) && (fld r 2 =? 11) then
+    (* the process behind endpoint [fld r 3] restarted: its connections are gone without a trace *)
+    Some {| cs := cs s; created := cnt_add (created s) (fld r 3) (- cnt_get (created s) (fld r 3));
+            late := late s; known_ok := known_ok s |}
   else if tag r =? 15 then
     if fld r 3 =? cnt_get (created s) (rep r) then Some s else None
   else Some s.
